@@ -222,8 +222,11 @@ def run_property(prop, tier, seed, scratch, only=None, list_only=False, write_ev
     for s, r in zip(specs, all_results):
         results[s["name"] + "/" + s.get("cfg", "dev")] = r
 
-    # retry inconclusive (timeouts / OOM) alone with a doubled budget
-    for s in specs:
+    # retry inconclusive (timeouts / OOM) alone with a doubled budget -- unless many harnesses are affected
+    # (then the cause is systematic, e.g. a change that makes the code much more expensive to analyse)
+    n_incon = sum(1 for s in specs if results[s["name"] + "/" + s.get("cfg", "dev")].status in ("TIMEOUT", "OOM", "ERROR")
+                  and not s.get("optional"))
+    for s in (specs if n_incon <= 2 else []):
         k = s["name"] + "/" + s.get("cfg", "dev")
         r = results[k]
         if r.status in ("TIMEOUT", "OOM", "ERROR") and not s.get("optional"):
